@@ -342,8 +342,16 @@ pub fn obl_action_position(s: &mut Src, ctx: &mut Ctx, df18: bool, track_some: b
 }
 
 /// identification report (C12, C14)
-pub fn obl_action_ident(s: &mut Src, ctx: &mut Ctx, df18: bool) {
-    let (pre, vacant) = setup_ghost(s, ctx, KA, false);
+pub fn obl_action_ident(s: &mut Src, ctx: &mut Ctx, df18: bool, had_callsign: bool) {
+    let (mut pre, vacant) = setup_ghost(s, ctx, KA, false);
+    if had_callsign {
+        // the record already carries a callsign from an earlier report (latest must win)
+        vrequire!(ctx, !vacant);
+        unsafe {
+            G_REC.as_mut().unwrap().callsign = Some(String::from("OLD"));
+        }
+        pre.callsign = Some(String::from("OLD"));
+    }
     let id = Identification { tc: adsb_deku::adsb::TypeCoding::A, ca: s.u8() & 7, cn: String::from("NEW1") };
     let frame = mk_frame(df18, KA, KB, ME::AircraftIdentification(id));
     let mut a = Airplanes::new();
